@@ -8,7 +8,7 @@ unit_result_is_no_result""".split()]
 ASSUMPTIONS = [
     "model: rdfToGo, udfToGo (udUnionDef, udCSDef, csConstruct, csIsVar, csConstructorName), csRegisterCtor, piFullName, fcToGo (fcFullApplyGo / fcPartialApplyGo), rfdToGo's signature part, as functions producing structured Go declarations / expressions (not text); field and payload types go through the C15 model of FTypeToGo",
     "the Stringer and conformance methods of union cases and the textual layout of the emitted declarations are not modelled",
-    "tie/search: generated record / union (generic or not, any field and payload types) / function / variable declarations and package_info calls of every arity (full, partial through let, piped, explicitly instantiated, package-qualified, unit argument/result) are transpiled by the real pipeline and compiled together with generated hand-style Go (client using the documented names, implementations of the package_info functions in package main and in a separate package); program stdout vs the expectation; the declarations of every union read back with go/parser vs the model (c03.union)",
+    "tie/search: generated record / union (generic or not, any field and payload types) / function / variable declarations and package_info calls of every arity (full, partial through let, piped, explicitly instantiated, package-qualified, unit argument/result) are transpiled by the real pipeline and compiled together with generated hand-style Go (client using the documented names, implementations of the package_info functions in package main and in a separate package); program stdout vs the expectation; the declarations of every union and the struct of every record read back with go/parser vs the model (c03.union, c03.record)",
 ]
 
 
@@ -25,7 +25,7 @@ def run(ctx):
     ctx.stream("c03", [fcdrv], env=gocommon.fc_env("c03", "%d %d %s" % (ctx.seed, n, wd)), timeout=20000)
     ctx.evaluations += n
     shutil.rmtree(wd, ignore_errors=True)
-    ctx.finish(rule="per case: 1-2 records (1-4 fields; generic or not; field types int/string/bool/[]int/[]string/int*string/earlier records/T), 1-2 unions (1-4 cases with/without payload; generic or not), top-level var and funcs with unit parameter/result, 23 package_info call forms (incl. explicitly instantiated generic functions whose type parameter occurs only in the result, full / partial / piped, type arguments drawn per program); compiled with a generated Go client + implementations and run; distinct = distinct union declarations checked against the model (programs are counted in evaluations)")
+    ctx.finish(rule="per case: 1-2 records (1-4 fields; generic or not; field types int/string/bool/[]int/[]string/int*string/earlier records/T), 1-2 unions (1-4 cases with/without payload; generic or not), top-level var and funcs with unit parameter/result, 23 package_info call forms (incl. explicitly instantiated generic functions whose type parameter occurs only in the result, full / partial / piped, type arguments drawn per program); compiled with a generated Go client + implementations and run; distinct = distinct union / record declarations checked against the model (programs are counted in evaluations)")
 
 
 def replay(ctx, path):
